@@ -20,6 +20,9 @@ PROP = {
         {"name": "install", "pkg": "internal/home",
          "files": ["home/common_assembly_test.go", "home/c11_test.go", "home/c11_raw_test.go", "home/c11_shutdown_test.go", "home/c11_install_test.go"],
          "plain": ["TestVFC11Install"]},
+        {"name": "install_fails", "pkg": "internal/home",
+         "files": ["home/common_assembly_test.go", "home/c11_test.go", "home/c11_raw_test.go", "home/c11_shutdown_test.go", "home/c11_install_test.go"],
+         "plain": ["TestVFC11InstallFails"]},
     ],
     "level": "exploration",
     "technique": "property-based testing (rapid) over (route x request shape x credential class x path spelling) against "
